@@ -24,7 +24,7 @@ RULE = ("(a) exhaustive: every condition tree with <= N connective nodes (N=2 qu
         "0.35 per node so leaves sit under 0-4 negations, all six comparison operators, contains/in_ both directions, "
         "boolean calls and attributes, both predicate kinds, HasType, root wrapped in 1-3 negations spelled not_ or ~; "
         "(c) random depth<=2 trees of comparisons between PARTIALLY ordered attribute values (frozensets, floats with NaN), "
-        "where the complement of a<b is not a>=b. "
+        "where the complement of a<b is not a>=b, and of a predicate whose arguments are attribute VALUES that may be 0; (d) Predicate terms (plain and negated) written inside the block of the query (`with an(T(From(d))) as q: ...`), which add themselves to it. "
         "All variables selected. Non-trivial: both c and not c have at least one satisfying assignment.")
 LEVEL_TEXT = ("Reference-model monitoring plus an oracle-free identity: rows of not_(c) must be the set complement of the rows "
               "of c within the Cartesian product and equal the oracle; not_(not_(c)) must return the rows of c. Bounded "
@@ -53,7 +53,8 @@ def plan(tier, seed):
     n = 220 if tier == "quick" else 2500
     specs += [{"kind": "rand", "n": n, "sub": i} for i in range(nsh)]
     specs += [{"kind": "exh2", "size": SIZES[tier], "stride": nsh, "offset": i} for i in range(nsh)]
-    specs += [{"kind": "po", "n": 60 if tier == "quick" else 600, "sub": 100 + i} for i in range(nsh)]
+    specs += [{"kind": "po", "n": 90 if tier == "quick" else 900, "sub": 100 + i} for i in range(nsh)]
+    specs += [{"kind": "block", "n": 40 if tier == "quick" else 400, "sub": 200 + i} for i in range(nsh)]
     return specs
 
 
@@ -62,15 +63,18 @@ def floors(tier):
             "cls:tag:neg:has": 10, "cls:tag:neg:truth": 10, "cls:tag:neg:fpred": 5, "cls:tag:neg:cpred": 5,
             "cls:tag:neg:hastype": 3, "re:cls:tag:neg:cmp.*": 100, "re:ElseIf(@.*)?\\.enter": 500,
             "re:AND(@.*)?\\.enter": 500, "cls:nvars=2": 50, "cls:nvars=3": 50,
-            "cls:partial_order:sets": 200, "cls:partial_order:nan": 200}
+            "cls:partial_order:sets": 150, "cls:partial_order:nan": 150, "cls:partial_order:falsy_pred_arg": 150,
+            "cls:block_style_predicate_terms": 200, "cls:block_style_negated_term": 100}
 
 
 def _po_case(rng):
     """Partially ordered values (sets under <, <=; NaN): the complement of a < b is NOT a >= b."""
     from .c02 import A
-    mode = rng.choice(["sets", "nan"])
+    mode = rng.choice(["sets", "nan", "falsy_pred_arg"])
 
     def val():
+        if mode == "falsy_pred_arg":
+            return rng.choice([0, 0, 1, 2])
         if mode == "sets":
             return {"fs": sorted(rng.sample([1, 2, 3], rng.randint(0, 3)))}
         return rng.choice(["nan", 1.0, 2.0, "nan", 3.0])
@@ -81,6 +85,9 @@ def _po_case(rng):
 
     def leaf():
         i, j = rng.randrange(len(kinds)), rng.randrange(len(kinds))
+        if mode == "falsy_pred_arg":
+            # a predicate over VALUES that may be falsy: its negation is the complement whatever the truth of an argument
+            return ["fpred", "f_vge", [A(i, rng.choice("ab")), A(j, rng.choice("ab")) if rng.random() < 0.5 else ["lit", rng.choice([0, 1])]]]
         return ["cmp", rng.choice(["<", "<=", ">", ">=", "==", "!="]), A(i, rng.choice("ab")), A(j, rng.choice("ab"))]
 
     def tree(d):
@@ -94,7 +101,69 @@ def _po_case(rng):
             "sel": list(range(len(kinds))), "wrap": [rng.choice(["not", "~"]) for _ in range(2)]}
 
 
+def _block_case(rng):
+    """conditions written as Predicate terms inside the block of the query (`with an(T(From(d))) as q: CGt(1); not_(HasType(P2))`):
+    every term adds itself to the query, its first argument is the selected variable implicitly"""
+    world = D.random_world(rng, np_=(3, 6), nq=(1, 2))
+    for o in world["P"]:
+        o["cls"] = rng.choice([0, 0, 1, 2])
+    terms = []
+    for _ in range(rng.randint(1, 3)):
+        kind = rng.choice(["CGt", "HasType"])
+        terms.append([rng.random() < 0.5, kind, rng.randint(0, 3) if kind == "CGt" else rng.choice(["P2", "P3", "P"])])
+    return {"k": "block", "world": world, "terms": terms}
+
+
+def _block_rows(world, terms, flip_all=False):
+    """-> (observed labels, expected labels)"""
+    from entity_query_language import symbolic_mode, an, From, not_, HasType
+    m = H.labels_of(world)
+    ps = world["P"]
+    types = {"P": D.P, "P2": D.P2, "P3": D.P3}
+    with symbolic_mode():
+        with an(D.P(From(ps))) as q:
+            for neg, kind, arg in terms:
+                neg = neg != flip_all
+                t = D.CGt(arg) if kind == "CGt" else HasType(types[arg])
+                if neg:
+                    not_(t)
+
+    def ok(o, neg, kind, arg):
+        v = o.a > arg if kind == "CGt" else isinstance(o, types[arg])
+        return v != (neg != flip_all)
+    return [H.lab(m, r) for r in q.evaluate()], [m[id(o)] for o in ps if all(ok(o, *t) for t in terms)]
+
+
+def check_block_case(case, ctx):
+    world = D.build_world(case["world"])
+    ctx.cls("cls:block_style_predicate_terms")
+    if any(t[0] for t in case["terms"]):
+        ctx.cls("cls:block_style_negated_term")
+    try:
+        got, exp = _block_rows(world, case["terms"])
+    except Exception as e:
+        import traceback
+        ctx.fail("EXC", f"block style: {type(e).__name__}: {e}\n{traceback.format_exc()[-500:]}")
+        return
+    if 0 < len(exp) < len(world["P"]):
+        ctx.nontrivial()
+    if sorted(got) != sorted(exp):
+        ctx.fail("BLOCK_STYLE", {"terms": case["terms"], "expected": exp, "observed": got})
+        return
+    if len(case["terms"]) == 1:
+        # one term and its negation partition the domain
+        got2, exp2 = _block_rows(D.build_world(case["world"]), case["terms"], flip_all=True)
+        if sorted(got2) != sorted(exp2) or len(got) + len(got2) != len(world["P"]):
+            ctx.fail("BLOCK_STYLE_COMPLEMENT", {"terms": case["terms"], "rows": len(got), "rows_negated": len(got2),
+                                                "domain": len(world["P"]), "expected_negated": exp2, "observed_negated": got2})
+    ctx.sample({"block_style_terms": case["terms"], "expected": exp, "observed": got})
+
+
 def cases(spec, ctx):
+    if spec["kind"] == "block":
+        for i in range(spec["n"]):
+            yield _block_case(ctx.rng(spec["sub"], i))
+        return
     if spec["kind"] == "po":
         for i in range(spec["n"]):
             yield _po_case(ctx.rng(spec["sub"], i))
@@ -142,6 +211,8 @@ def _rows(case, world, cond, caching=True):
 
 
 def check_case(case, ctx):
+    if case.get("k") == "block":
+        return check_block_case(case, ctx)
     world = D.build_world(case.get("world") or c01.TT)
     kinds = case["kinds"]
     prod = [tuple(r) for r in multi.expected({**case, "cond": None}, world)]
@@ -188,6 +259,8 @@ def check_case(case, ctx):
 
 def classify(f, ctx):
     case = f["case"]
+    if case.get("k") == "block":
+        return None
     if "negations" not in f or f["kind"] in ("COMPLEMENT", "DOUBLE_NEGATION"):
         return None
     world = D.build_world(case.get("world") or c01.TT)
